@@ -58,11 +58,40 @@ def _points(ctx, path, n_extra=6):
     pts = []
     if path.witness is not None:
         pts.append(dict(path.witness))
+        pts.extend(_around_witness(ctx, path, n_extra))
     for _ in range(n_extra):
         e = ctx.sample(tries=60)
         if e is not None:
             pts.append(e)
     return pts
+
+
+def _around_witness(ctx, path, n):
+    """generic points of a region that rejection sampling in the declared box cannot reach (e.g. a pre-activation above 100):
+    the solver's witness is usually degenerate (most variables 0), so the variables the path condition constrains are kept
+    near their witness values and all the others are drawn at random; only points of pre and PC are kept."""
+    w = {k: float(v) for k, v in path.witness.items()}
+    pinned = set()
+    for node, _S in path.pc:
+        pinned |= set(dag.variables(node))
+    out = []
+    for t in range(40 * n):
+        if len(out) >= n:
+            break
+        scale = 0.3 if t < 20 * n else 0.02
+        env = {}
+        for k, v in w.items():
+            lo, hi = ctx.var_range.get(k, (-1.5, 1.5))
+            if k in pinned:
+                env[k] = v + ctx.rng.gauss(0.0, scale * (abs(v) + 0.05))
+            else:
+                env[k] = ctx.rng.uniform(lo, hi)
+        try:
+            if ctx.holds_at(env):
+                out.append(env)
+        except (ZeroDivisionError, ValueError, OverflowError, KeyError):
+            continue
+    return out
 
 
 def _numeric_refute(ctx, path, d, relset=None):
